@@ -36,9 +36,12 @@ def subseq : List String → List String → Bool
 query, short-lifetime exit, expiry check, attach `ocsp`, staple only under Status == Good,
 persist; the staple is assigned in exactly one place and `ocsp` in exactly one -/
 theorem C14_tie_order :
-    subseq ["if-disabled", "storage.Load", "parse", "freshOCSP", "currentOCSP", "storage.Delete", "getOCSPForCert",
+    subseq ["if-disabled", "storage.Load", "parse", "freshOCSP", "currentOCSP", "getOCSPForCert",
       "if-short-lifetime", "if-past-expiry", "return-err", "set-ocsp", "if-good", "set-staple:under-good", "storage.Store"]
       CM.Gen.C14.stapleSteps = true ∧
+    -- (the deletion of an unusable stored staple follows its parsing and precedes the query; which
+    -- arm of the parse-error test comes first in the source does not matter)
+    subseq ["parse", "storage.Delete", "getOCSPForCert"] CM.Gen.C14.stapleSteps = true ∧
     (CM.Gen.C14.stapleSteps.filter (fun s => s = "set-staple:under-good" || s = "set-staple:unguarded")).length = 1 ∧
     (CM.Gen.C14.stapleSteps.filter (fun s => s = "set-ocsp")).length = 1 ∧
     (CM.Gen.C14.stapleSteps.filter (fun s => s = "parse")).length = 1 := by decide
